@@ -1,13 +1,15 @@
 #!/bin/bash
 # usage: seedcheck.sh <seed-id> <PROP> [more PROPs]
-# applies /verif/seeded/<id>/patch.diff to /repo, runs the quick checks, restores /repo and the evidence files
+# Evaluates a seeded change WITHOUT touching /repo or /verif's evidence: the patch is applied to a scratch git
+# worktree of /repo, the checks run against it (VERIF_REPO) from a scratch copy of /verif (VERIF_DIR).
 id=$1; shift
-cd /verif
-git -C /repo diff --quiet || { echo "/repo is dirty"; exit 2; }
-git -C /repo apply /verif/seeded/$id/patch.diff || { echo "patch does not apply"; exit 2; }
+R=/tmp/seedrepo_$id; V=/tmp/seedverif_$id
+git -C /repo worktree remove --force $R 2>/dev/null; rm -rf $R $V
+git -C /repo worktree add -q --detach $R HEAD || exit 2
+git -C $R apply /verif/seeded/$id/patch.diff || { echo "patch does not apply"; git -C /repo worktree remove --force $R; exit 2; }
+mkdir -p $V; rsync -a --exclude .git --exclude .work --exclude bin --exclude replays --exclude seeded /verif/ $V/
 for p in "$@"; do
-  ./bin/vsym check $p --tier quick > /tmp/seed_${id}_$p.log 2>&1
+  VERIF_REPO=$R VERIF_DIR=$V /verif/bin/vsym check $p --tier quick ${JOBS:+--jobs $JOBS} > /tmp/seed_${id}_$p.log 2>&1
   echo "seed=$id check=$p exit=$? $(grep -c '^VIOLATION' /tmp/seed_${id}_$p.log) violation line(s)"
 done
-git -C /repo checkout -- .
-git -C /verif checkout -- evidence 2>/dev/null
+git -C /repo worktree remove --force $R; rm -rf $V
